@@ -1,8 +1,8 @@
 Require Extraction.
 Require Import ExtrOcamlBasic.
-From CSL Require Import Base.Prelude Base.Hex Crypto.Iface Crypto.Wrappers Crypto.Emip3 Crypto.Obs.
+From CSL Require Import Base.Prelude Base.Hex Crypto.Iface Crypto.Wrappers Crypto.Emip3 Crypto.Obs Crypto.Bech32Inst.
 Extraction Language OCaml.
 Definition keepN : N := N.add 0 0.
 Definition keepZ : Z := Z.add 0 0.
 Definition keepNat : nat := length (@nil N).
-Extraction "model_c12.ml" keepN keepZ keepNat model_obs judge known_class has_panic model_seq judge_seq.
+Extraction "model_c12.ml" keepN keepZ keepNat model_obs judge known_class has_panic model_seq judge_seq with_bech32.
